@@ -267,6 +267,7 @@ def hdr_ob(state, n, pad, kind):
         from aioquic.quic.connection import QuicConnection
 
         _quiet()
+        cm.DET.n = 0  # connection IDs drawn while exploring must not differ between re-executions of a path
         sx.register_keys([1, 0x6B3343CF, 0])
         sx.register_keys(range(0x40))
         if "connected" in state or "closing" in state:
@@ -324,7 +325,7 @@ def hdr_ob(state, n, pad, kind):
 
 
 def hdr_shims():
-    return cm.conn_shims(extra=[("CryptoPair", cm.FakeCryptoPair), ("tls", cm.TlsModuleProxy()), ("get_retry_integrity_tag", _fake_retry_tag), ("SMALLEST_MAX_DATAGRAM_SIZE", 1)])
+    return cm.conn_shims(extra=[("CryptoPair", cm.FakeCryptoPair), ("tls", cm.TlsModuleProxy()), ("get_retry_integrity_tag", _fake_retry_tag), ("SMALLEST_MAX_DATAGRAM_SIZE", 1), ("os", cm.DET)])
 
 
 def _fake_retry_tag(packet_without_tag, original_destination_cid, version):
